@@ -720,7 +720,12 @@ class SumGrader(SummationGraderBase):
             # variables so that students can't use them
             for key in var_blacklist:
                 del varlist[key]
-                
+
+            # An instructor variable already has a meaning, so cannot be the summation variable
+            if student_input['summation_variable'] in var_blacklist:
+                msg = 'Summation variable {} conflicts with another previously-defined variable.'
+                raise SummationError(msg.format(student_input['summation_variable']))
+
             # Evaluate sums.
             student_eval, used_funcs = self.evaluate_sum(
                 student_input['summand'],
